@@ -23,6 +23,19 @@ pub struct C04 {
 	/// mined; then both are posted and mined and B refreshes
 	relay: Option<Relay>,
 	relays_left: u32,
+	/// scripted "twin receipts": two accounts of one wallet whose counters are equal each
+	/// receive a payment (equal log ids, equal key indices), both are mined, each
+	/// account is refreshed
+	twin: Option<TwinRx>,
+	twin_tried: bool,
+	twin_head: Vec<Step>,
+}
+
+struct TwinRx {
+	w: usize,
+	labels: Vec<String>,
+	scripts: Vec<crate::gen::SendScript>,
+	tail: Vec<Step>,
 }
 
 struct Relay {
@@ -57,6 +70,9 @@ impl C04 {
 			had_outage: BTreeSet::new(),
 			relay: None,
 			relays_left: if run.rng.chance(1, 4) { 1 + run.rng.below(2) as u32 } else { 0 },
+			twin: None,
+			twin_tried: false,
+			twin_head: vec![],
 		}
 	}
 
@@ -212,9 +228,19 @@ impl C04 {
 		for (c, (val, st)) in &rec {
 			match tru.get(c) {
 				None => {
+					// listed finding (context merge when an invoice is paid by the wallet
+					// that issued it), here with the invoice issued into another account:
+					// the invoiced output is booked under the paying account
+					let self_paid = run.model.deals.iter().any(|d| {
+						d.kind == crate::model::DealKind::Invoice && d.initiator == w && d.payer == Some(w) && d.amount == *val
+					});
 					v.push(run.viol(
 						"books_equal_truth",
-						&format!("recorded_{}_not_in_utxo", crate::world::status_str(st)),
+						&format!(
+							"recorded_{}_not_in_utxo{}",
+							crate::world::status_str(st),
+							if self_paid { ":self_paid_invoice_output" } else { "" }
+						),
 						format!(
 							"wallet {} acct {}: output {} ({} nanogrin, {}) is recorded but not in the node's unspent set",
 							w, acct_label, c, val, st
@@ -389,6 +415,71 @@ impl Prop for C04 {
 				None => self.relay = None,
 			}
 		}
+		if let Some(s) = self.twin_head.pop() {
+			return Some(s);
+		}
+		if let Some(t) = self.twin.as_mut() {
+			// the sends one after the other, then the tail (mine, refresh each account)
+			while let Some(sc) = t.scripts.last_mut() {
+				if sc.failed {
+					t.scripts.clear();
+					t.tail.clear();
+					break;
+				}
+				match sc.next() {
+					Some(s) => return Some(s),
+					None => {
+						t.scripts.pop();
+					}
+				}
+			}
+			match t.tail.pop() {
+				Some(s) => return Some(s),
+				None => self.twin = None,
+			}
+		}
+		if !self.gen.in_setup() && self.gen.twins && !self.twin_tried {
+			self.twin_tried = true;
+			let nw = run.ex.world.wallets.len();
+			let cands: Vec<usize> = (0..self.gen.labels.len().min(nw)).filter(|w| self.gen.labels[*w].len() > 1).collect();
+			if !cands.is_empty() && nw >= 2 && run.rng.chance(2, 3) && !run.ex.world.chain.is_down() {
+				let w = *run.rng.pick(&cands);
+				// a payer with funds
+				let payers: Vec<usize> = (0..nw).filter(|o| *o != w && run.ex.world.is_open(*o) && HistGen::spendable(run, *o) > 10_000_000_000).collect();
+				if let Some(o) = payers.first().cloned() {
+					let labels: Vec<String> = self.gen.labels[w].iter().take(2).cloned().collect();
+					let mut scripts = vec![];
+					for l in labels.iter().rev() {
+						let mut a = SendArgs::simple(run.rng.range(1, 4) * 1_000_000_000 + run.rng.below(1000));
+						a.min_conf = 1;
+						a.max_outputs = 500;
+						a.num_change = 1;
+						let mut sc = crate::gen::SendScript::new(o, w, a, 5);
+						sc.dest = Some(l.clone());
+						scripts.push(sc);
+					}
+					// tail is popped from the end
+					let mut tail = vec![];
+					for l in labels.iter() {
+						tail.push(Step::new(Op::Refresh { w }));
+						tail.push(Step::new(Op::SetAccount { w, label: l.clone() }));
+					}
+					tail.push(Step::new(Op::Mine { w: None, n: 1, txs: true }));
+					// before anything: both accounts refreshed, so their counters are level
+					let mut head = vec![];
+					for l in labels.iter() {
+						head.push(Step::new(Op::SetAccount { w, label: l.clone() }));
+						head.push(Step::new(Op::Refresh { w }));
+					}
+					run.cov.probe("twin_receipts_script_started");
+					self.twin = Some(TwinRx { w, labels, scripts, tail });
+					// the head steps go first: queue them in front by returning them one by one
+					head.reverse();
+					self.twin_head = head;
+					return self.twin_head.pop();
+				}
+			}
+		}
 		if self.gen.setup_done && self.relays_left > 0 && run.rng.chance(1, 8) {
 			let nw = run.ex.world.wallets.len();
 			if nw >= 2 && !run.ex.world.chain.is_down() {
@@ -420,6 +511,12 @@ impl Prop for C04 {
 		let mut v = vec![];
 		self.gen.feedback(run, step, out);
 		self.update_taint(run, step, out);
+		if let Some(t) = self.twin.as_mut() {
+			if let Some(sc) = t.scripts.last_mut() {
+				sc.feedback(step, out);
+			}
+			let _ = (&t.w, &t.labels);
+		}
 		if let Some(r) = self.relay.as_mut() {
 			let mut abort = !out.ok && !matches!(step.op, Op::Refresh { .. } | Op::Mine { .. });
 			if let (Op::InitSend { .. }, Some(m)) = (&step.op, out.new_msg) {
